@@ -37,6 +37,17 @@ type fsRules struct {
 	obl  map[string]*Obligation
 	rule map[string]string // obligation key -> rule
 	adv  []string
+	seen map[string]map[string]bool // rule -> entry points in which it was evaluated
+}
+
+func (r *fsRules) mark(rule, entry string) {
+	if r.seen == nil {
+		r.seen = map[string]map[string]bool{}
+	}
+	if r.seen[rule] == nil {
+		r.seen[rule] = map[string]bool{}
+	}
+	r.seen[rule][entry] = true
 }
 
 func newFsRules() *fsRules {
@@ -49,6 +60,7 @@ func (c *fsClient) violate(st *State, rule, key string, pos token.Pos, msg strin
 		c.rep.adv = append(c.rep.adv, "advisory (I/O fault model): "+k+": "+msg)
 		return
 	}
+	c.rep.mark(rule, c.entry)
 	w := witnessOf(c.p, st.trace)
 	if old, ok := c.rep.viol[k]; ok {
 		if len(w) < len(old.Witness) {
@@ -65,6 +77,7 @@ func (c *fsClient) okay(rule, key, note string) {
 	if c.faults {
 		return
 	}
+	c.rep.mark(rule, c.entry)
 	k := rule + " / " + key
 	if _, bad := c.rep.viol[k]; bad {
 		return
